@@ -2,8 +2,17 @@
 
 package collection
 
-// C12 correspondence harness: drives the real TimingWheel through its public API with a
-// harness-owned synchronous ticker, one operation per trace line.
+// C12 correspondence harnesses, one operation per trace line, same op language in every mode:
+//
+//	TestVerifC12WB  mode=wb   the run loop is stopped and its handlers (setTask, moveTask, removeTask, onTick,
+//	                          drainAll) are called directly, exactly as the loop's select cases call them; a
+//	                          panic inside a handler is recorded as an observation instead of killing the process
+//	TestVerifC12    mode=api  the real TimingWheel only through its public API (NewTimingWheelWithTicker,
+//	                          SetTimer, MoveTimer, RemoveTimer, Drain, Stop) with a harness-owned ticker:
+//	                          tk=sync an unbuffered ticker, tk=fake timex.NewFakeTicker
+//	                mode=ctor NewTimingWheel's argument check
+//
+// Generation (c12Gen*) is separate from execution: the executors are driven only by the op text.
 
 import (
 	"fmt"
@@ -11,173 +20,515 @@ import (
 	"sort"
 	"strings"
 	"sync"
+	"sync/atomic"
 	"testing"
 	"time"
 
+	"github.com/zeromicro/go-zero/core/timex"
 	"github.com/zeromicro/go-zero/internal/verifh"
 )
 
-// syncTicker hands ticks over an unbuffered channel: Tick returns once the wheel's
-// event loop has received the tick.
-type c12Ticker struct{ c chan time.Time }
+// c12Ticker hands ticks over an unbuffered channel: a send returns once the wheel's event loop
+// has received the tick.
+type c12Ticker struct {
+	c     chan time.Time
+	stops int32
+}
 
 func (t *c12Ticker) Chan() <-chan time.Time { return t.c }
-func (t *c12Ticker) Stop()                  {}
+func (t *c12Ticker) Stop()                  { atomic.AddInt32(&t.stops, 1) }
 
-func c12Gen(r *verifh.Rng) []verifh.Section {
-	var secs []verifh.Section
-	nsec := verifh.Scale(60, 1200)
-	for i := 0; i < nsec; i++ {
-		var n int
-		switch r.Intn(6) {
+// c12Fake is timex.NewFakeTicker with a counter on Stop.
+type c12Fake struct {
+	timex.FakeTicker
+	stops int32
+}
+
+func (t *c12Fake) Stop() {
+	atomic.AddInt32(&t.stops, 1)
+	t.FakeTicker.Stop()
+}
+
+// ---------------------------------------------------------------------------------------------- generation
+
+type c12GenCfg struct {
+	api bool // nil keys, delays <= 0, Stop and calls after Stop
+}
+
+func c12WheelSize(r *verifh.Rng) int {
+	switch r.Intn(6) {
+	case 0:
+		return 1
+	case 1:
+		return 2
+	case 2:
+		return r.Range(3, 5)
+	case 3:
+		return 10
+	case 4:
+		return r.Range(6, 40)
+	default:
+		return r.Range(41, 300)
+	}
+}
+
+// c12Ops generates the op list of one section. It keeps a rough shadow of where each key was last
+// placed (absolute tick of its slot) only to aim delays at interesting slots; nothing depends on it.
+func c12Ops(r *verifh.Rng, n, interval int, g c12GenCfg) []string {
+	nkeys := r.Range(1, 5)
+	var ops []string
+	abs := 0                  // ticks issued so far
+	phys := map[int]int{}     // key -> absolute tick at which the slot it was last placed in is scanned
+	tick := func(c int) {
+		for j := 0; j < c; j++ {
+			ops = append(ops, "tick")
+		}
+		abs += c
+	}
+	// advance the wheel so that tickedPos sits anywhere, including just before/after wrap-around
+	tick(r.Pick(0, 1, n-1, n, n+1, r.Intn(2*n+1)))
+	steps := func(k int) int {
+		var s int
+		switch r.Intn(11) {
 		case 0:
-			n = 1
+			s = 1
 		case 1:
-			n = 2
+			s = r.Range(1, n)
 		case 2:
-			n = r.Range(3, 5)
+			s = n
 		case 3:
-			n = 10
+			s = n + 1
 		case 4:
-			n = r.Range(6, 40)
+			s = r.Range(1, 2*n+1)
+		case 5:
+			s = r.Range(n, 5*n+3)
+		case 6:
+			s = r.Pick(n-1, 2*n-1, 2*n, 2*n+1, 3*n)
+		case 7, 8:
+			// the slot the key was last placed in (same physical slot), possibly whole revolutions later
+			if p, ok := phys[k]; ok {
+				s = ((p-abs)%n+n)%n + n*r.Intn(3)
+			} else {
+				s = r.Range(1, 3*n+2)
+			}
+		case 9:
+			// one slot before / after the slot the key was last placed in
+			if p, ok := phys[k]; ok {
+				s = ((p-abs+r.Pick(-1, 1))%n+n)%n + n*r.Intn(3)
+			} else {
+				s = r.Range(1, n+1)
+			}
 		default:
-			n = r.Range(41, 300)
+			s = r.Range(1, 3*n+2)
 		}
-		interval := r.Pick(1, 7, 1000)
-		nkeys := r.Range(1, 4)
-		var ops []string
-		// advance the wheel so that tickedPos sits anywhere, including just before/after wrap-around
-		pre := r.Pick(0, 1, n-1, n, n+1, r.Intn(2*n+1))
-		for j := 0; j < pre; j++ {
-			ops = append(ops, "tick")
+		if s < 1 {
+			s = n
 		}
-		delay := func() int {
-			var steps int
-			switch r.Intn(8) {
-			case 0:
-				steps = 1
-			case 1:
-				steps = r.Range(1, n)
-			case 2:
-				steps = n
-			case 3:
-				steps = n + 1
-			case 4:
-				steps = r.Range(1, 2*n+1)
-			case 5:
-				steps = r.Range(n, 5*n+3)
-			case 6:
-				steps = r.Pick(n-1, 2*n-1, 2*n, 2*n+1, 3*n)
-				if steps < 1 {
-					steps = 1
+		return s
+	}
+	delay := func(k int) int {
+		s := steps(k)
+		phys[k] = abs + s
+		return s*interval + r.Intn(interval)
+	}
+	key := func() int { return r.Intn(nkeys) }
+	set := func(k int) { ops = append(ops, fmt.Sprintf("set %d %d %d", k, r.Intn(1000), delay(k))) }
+	move := func(k int) { ops = append(ops, fmt.Sprintf("move %d %d", k, delay(k))) }
+	remove := func(k int) { ops = append(ops, fmt.Sprintf("remove %d", k)) }
+	someTicks := func() {
+		switch r.Intn(4) {
+		case 0:
+			tick(1)
+		case 1:
+			tick(r.Range(1, n+2))
+		case 2:
+			tick(r.Range(0, 3))
+		default:
+			tick(r.Pick(n-1, n, n+1, 2*n))
+		}
+	}
+	nops := r.Range(4, verifh.Scale(50, 80))
+	for j := 0; j < nops; j++ {
+		k := key()
+		switch x := r.Intn(100); {
+		case x < 18:
+			set(k)
+		case x < 38:
+			move(k)
+		case x < 44:
+			remove(k)
+		case x < 47:
+			// delay below one interval (outside the property's quantifier, still compared with the model)
+			if interval > 1 {
+				if r.Bool() {
+					ops = append(ops, fmt.Sprintf("move %d %d", k, r.Range(1, interval-1)))
+				} else {
+					ops = append(ops, fmt.Sprintf("set %d %d %d", k, r.Intn(1000), r.Range(1, interval-1)))
+					phys[k] = abs + 1
 				}
-			default:
-				steps = r.Range(1, 3*n+2)
 			}
-			return steps*interval + r.Intn(interval)
-		}
-		nops := r.Range(4, verifh.Scale(50, 80))
-		for j := 0; j < nops; j++ {
-			k := r.Intn(nkeys)
-			switch x := r.Intn(100); {
-			case x < 22:
-				ops = append(ops, fmt.Sprintf("set %d %d %d", k, r.Intn(1000), delay()))
-			case x < 44:
-				ops = append(ops, fmt.Sprintf("move %d %d", k, delay()))
-			case x < 50:
-				ops = append(ops, fmt.Sprintf("remove %d", k))
-			case x < 52:
-				// delay below one interval (outside the property's quantifier, still compared with the model)
-				if interval > 1 {
-					if r.Bool() {
-						ops = append(ops, fmt.Sprintf("move %d %d", k, r.Range(1, interval-1)))
-					} else {
-						ops = append(ops, fmt.Sprintf("set %d %d %d", k, r.Intn(1000), r.Range(1, interval-1)))
-					}
+		case x < 49:
+			ops = append(ops, "drain")
+			if r.Bool() {
+				set(k) // the key is used again right after Drain
+			}
+		case x < 52:
+			// re-timing chain on one key: set, lazy move, (ticks), move again, …
+			set(k)
+			for c := r.Range(1, 3); c > 0; c-- {
+				if r.Bool() {
+					someTicks()
 				}
-			case x < 53:
-				ops = append(ops, "drain")
-			default:
-				burst := 1
 				if r.Chance(1, 4) {
-					burst = r.Range(1, n+2)
-				}
-				for b := 0; b < burst; b++ {
-					ops = append(ops, "tick")
+					set(k)
+				} else {
+					move(k)
 				}
 			}
+		case x < 55:
+			// a key is removed (or moved to an earlier slot) and set again while the old entry is still parked
+			set(k)
+			if r.Bool() {
+				remove(k)
+			} else {
+				ops = append(ops, fmt.Sprintf("move %d %d", k, interval*r.Range(1, 2)))
+				tick(r.Range(1, 2))
+			}
+			set(k)
+			someTicks()
+			switch r.Intn(3) {
+			case 0:
+				remove(k)
+			case 1:
+				move(k)
+			default:
+				set(k)
+			}
+		case x < 60 && g.api:
+			switch r.Intn(6) {
+			case 0:
+				ops = append(ops, fmt.Sprintf("set nil %d %d", r.Intn(1000), delay(k)))
+			case 1:
+				ops = append(ops, fmt.Sprintf("move nil %d", delay(k)))
+			case 2:
+				ops = append(ops, "remove nil")
+			case 3:
+				ops = append(ops, fmt.Sprintf("set %d %d %d", k, r.Intn(1000), r.Pick(0, -1, -interval, -5*interval)))
+			case 4:
+				ops = append(ops, fmt.Sprintf("move %d %d", k, r.Pick(0, -1, -interval, -5*interval)))
+			default:
+				ops = append(ops, fmt.Sprintf("set nil %d %d", r.Intn(1000), r.Pick(0, -1)))
+			}
+		default:
+			burst := 1
+			if r.Chance(1, 4) {
+				burst = r.Range(1, n+2)
+			}
+			tick(burst)
 		}
-		// run out every pending timer
-		for j := 0; j < 2; j++ {
-			ops = append(ops, "tick")
+	}
+	if g.api && r.Chance(1, 3) {
+		// Stop with timers still pending, then everything again on the stopped wheel
+		ops = append(ops, "stop")
+		for c := r.Range(1, 8); c > 0; c-- {
+			k := key()
+			switch r.Intn(9) {
+			case 0:
+				set(k)
+			case 1:
+				move(k)
+			case 2:
+				remove(k)
+			case 3:
+				ops = append(ops, "drain")
+			case 4:
+				ops = append(ops, "set nil 1 "+fmt.Sprint(interval))
+			case 5:
+				ops = append(ops, fmt.Sprintf("move %d 0", k))
+			case 6:
+				ops = append(ops, "remove nil")
+			default:
+				ops = append(ops, "tick")
+			}
 		}
-		secs = append(secs, verifh.Section{Cfg: fmt.Sprintf("n=%d interval=%d", n, interval), Ops: ops})
+		if r.Chance(1, 4) {
+			ops = append(ops, "stop", "tick")
+		}
+		return ops
+	}
+	// run out pending timers
+	tick(r.Pick(2, 2, n+1))
+	return ops
+}
+
+func c12GenSections(r *verifh.Rng, nsec int, mode string, tks []string, g c12GenCfg) []verifh.Section {
+	var secs []verifh.Section
+	for i := 0; i < nsec; i++ {
+		n := c12WheelSize(r)
+		interval := r.Pick(1, 7, 1000)
+		cfg := fmt.Sprintf("n=%d interval=%d mode=%s", n, interval, mode)
+		if len(tks) > 0 {
+			cfg += " tk=" + tks[i%len(tks)]
+		}
+		secs = append(secs, verifh.Section{Cfg: cfg, Ops: c12Ops(r, n, interval, g)})
 	}
 	return secs
 }
 
-func TestVerifC12(t *testing.T) {
-	secs := verifh.Sections(c12Gen)
+func c12GenWB(r *verifh.Rng) []verifh.Section {
+	return c12GenSections(r, verifh.Scale(90, 1500), "wb", nil, c12GenCfg{})
+}
+
+func c12GenAPI(r *verifh.Rng) []verifh.Section {
+	secs := c12GenSections(r, verifh.Scale(90, 1200), "api", []string{"sync", "fake", "sync"}, c12GenCfg{api: true})
+	// NewTimingWheel's argument check
+	var ops []string
+	for i := 0; i < 24; i++ {
+		iv := r.Pick(-1000, -1, 0, 1, 1000)
+		n := r.Pick(-3, -1, 0, 1, 2, 300)
+		if r.Chance(1, 2) {
+			iv = r.Pick(1, 1000)
+		}
+		if r.Chance(1, 2) {
+			n = r.Pick(1, 10)
+		}
+		ops = append(ops, fmt.Sprintf("new %d %d %d", iv, n, r.Pick(0, 0, 1)))
+	}
+	return append(secs, verifh.Section{Cfg: "mode=ctor", Ops: ops})
+}
+
+// ---------------------------------------------------------------------------------------------- execution
+
+type c12Sink struct {
+	mu    sync.Mutex
+	fired []string
+}
+
+func (s *c12Sink) exec(k, v any) {
+	s.mu.Lock()
+	s.fired = append(s.fired, fmt.Sprintf("%v:%v", k, v))
+	s.mu.Unlock()
+}
+
+func (s *c12Sink) collect(base int) string {
+	if !verifh.SettleGoroutines(base, 5*time.Second) {
+		return "TIMEOUT-goroutines"
+	}
+	s.mu.Lock()
+	out := s.fired
+	s.fired = nil
+	s.mu.Unlock()
+	sort.Strings(out)
+	return strings.Join(out, " ")
+}
+
+func c12Key(s string) any {
+	if s == "nil" {
+		return nil
+	}
+	return verifh.Atoi(s)
+}
+
+func c12Err(err error) string {
+	switch err {
+	case ErrArgument:
+		return "err=argument"
+	case ErrClosed:
+		return "err=closed"
+	}
+	return "err=other:" + strings.ReplaceAll(err.Error(), " ", "_")
+}
+
+const c12Sentinel = -1
+
+// TestVerifC12WB: white box. The wheel is built by the real constructor, its run loop is stopped, and the
+// loop's handlers are called directly with the requests the public methods would have sent.
+func TestVerifC12WB(t *testing.T) {
+	secs := verifh.Sections(c12GenWB)
 	verifh.Run(t, secs, func(cfg verifh.Cfg) (func(op []string) string, func()) {
 		n := cfg.Int("n", 1)
 		interval := time.Duration(cfg.Int("interval", 1))
-		var mu sync.Mutex
-		var fired []string
-		exec := func(k, v any) {
-			mu.Lock()
-			fired = append(fired, fmt.Sprintf("%d:%d", k.(int), v.(int)))
-			mu.Unlock()
-		}
-		ticker := &c12Ticker{c: make(chan time.Time)}
-		tw, err := NewTimingWheelWithTicker(interval, n, exec, ticker)
+		sink := &c12Sink{}
+		before := runtime.NumGoroutine()
+		tw, err := NewTimingWheelWithTicker(interval, n, sink.exec, &c12Ticker{c: make(chan time.Time)})
 		if err != nil {
 			panic(err)
 		}
-		const sentinel = -1
-		sync := func() {
-			// the event loop is single-threaded: once it accepts this no-op, the previous op is done
-			if err := tw.RemoveTimer(sentinel); err != nil {
+		tw.Stop()
+		if !verifh.SettleGoroutines(before, 5*time.Second) {
+			panic("run loop did not return after Stop")
+		}
+		base := runtime.NumGoroutine()
+		step := func(op []string) string {
+			switch op[0] {
+			case "set":
+				if op[1] == "nil" || verifh.Atoi(op[3]) <= 0 {
+					return "bad-op"
+				}
+				task := timingEntry{
+					baseEntry: baseEntry{delay: time.Duration(verifh.Atoi(op[3])), key: verifh.Atoi(op[1])},
+					value:     verifh.Atoi(op[2]),
+				}
+				tw.setTask(&task)
+			case "move":
+				if op[1] == "nil" || verifh.Atoi(op[2]) <= 0 {
+					return "bad-op"
+				}
+				tw.moveTask(baseEntry{delay: time.Duration(verifh.Atoi(op[2])), key: verifh.Atoi(op[1])})
+			case "remove":
+				if op[1] == "nil" {
+					return "bad-op"
+				}
+				tw.removeTask(verifh.Atoi(op[1]))
+			case "tick":
+				tw.onTick()
+			case "drain":
+				tw.drainAll(sink.exec)
+			default:
+				return "bad-op"
+			}
+			return sink.collect(base)
+		}
+		return step, func() { verifh.SettleGoroutines(base, time.Second) }
+	})
+}
+
+// TestVerifC12: black box through the public API.
+func TestVerifC12(t *testing.T) {
+	secs := verifh.Sections(c12GenAPI)
+	verifh.Run(t, secs, func(cfg verifh.Cfg) (func(op []string) string, func()) {
+		if cfg.Str("mode", "api") == "ctor" {
+			return c12CtorStep, nil
+		}
+		n := cfg.Int("n", 1)
+		interval := time.Duration(cfg.Int("interval", 1))
+		sink := &c12Sink{}
+		var syncT *c12Ticker
+		var fakeT *c12Fake
+		var ticker timex.Ticker
+		if cfg.Str("tk", "sync") == "fake" {
+			fakeT = &c12Fake{FakeTicker: timex.NewFakeTicker()}
+			ticker = fakeT
+		} else {
+			syncT = &c12Ticker{c: make(chan time.Time)}
+			ticker = syncT
+		}
+		tw, err := NewTimingWheelWithTicker(interval, n, sink.exec, ticker)
+		if err != nil {
+			panic(err)
+		}
+		stopped := false
+		waitLoop := func() {
+			// the event loop is single-threaded: once it accepts this no-op, the previous request is done
+			if err := tw.RemoveTimer(c12Sentinel); err != nil && err != ErrClosed {
 				panic(err)
 			}
 		}
-		sync()
+		waitLoop()
 		base := runtime.NumGoroutine()
-		collect := func() string {
-			if !verifh.SettleGoroutines(base, 5*time.Second) {
-				return "TIMEOUT-goroutines"
+		stops := func() int32 {
+			if fakeT != nil {
+				return atomic.LoadInt32(&fakeT.stops)
 			}
-			mu.Lock()
-			out := fired
-			fired = nil
-			mu.Unlock()
-			sort.Strings(out)
-			return strings.Join(out, " ")
+			return atomic.LoadInt32(&syncT.stops)
+		}
+		// deliver one tick to the run loop; false if nobody takes it
+		tick := func() (delivered bool, note string) {
+			if fakeT != nil {
+				if stopped && stops() > 0 {
+					// the loop closed the fake ticker's channel: Tick would panic with "send on closed channel"
+					func() {
+						defer func() {
+							if p := recover(); p != nil {
+								note = "undelivered"
+							}
+						}()
+						fakeT.Tick()
+						note = "TICKER-NOT-CLOSED"
+					}()
+					return false, note
+				}
+				fakeT.Tick()
+				deadline := time.Now().Add(2 * time.Second)
+				for i := 0; len(fakeT.Chan()) > 0; i++ {
+					if i > 1000 && time.Now().After(deadline) {
+						return false, "undelivered"
+					}
+					runtime.Gosched()
+				}
+				return true, ""
+			}
+			if !stopped {
+				syncT.c <- time.Time{}
+				return true, ""
+			}
+			for i := 0; i < 200; i++ {
+				select {
+				case syncT.c <- time.Time{}:
+					return true, ""
+				default:
+					runtime.Gosched()
+				}
+			}
+			return false, "undelivered"
 		}
 		step := func(op []string) string {
 			var err error
 			switch op[0] {
 			case "set":
-				err = tw.SetTimer(verifh.Atoi(op[1]), verifh.Atoi(op[2]), time.Duration(verifh.Atoi(op[3])))
+				err = tw.SetTimer(c12Key(op[1]), verifh.Atoi(op[2]), time.Duration(verifh.Atoi(op[3])))
 			case "move":
-				err = tw.MoveTimer(verifh.Atoi(op[1]), time.Duration(verifh.Atoi(op[2])))
+				err = tw.MoveTimer(c12Key(op[1]), time.Duration(verifh.Atoi(op[2])))
 			case "remove":
-				err = tw.RemoveTimer(verifh.Atoi(op[1]))
+				err = tw.RemoveTimer(c12Key(op[1]))
 			case "tick":
-				ticker.c <- time.Time{}
+				if ok, note := tick(); !ok {
+					return note
+				}
 			case "drain":
-				err = tw.Drain(exec)
+				err = tw.Drain(sink.exec)
+			case "stop":
+				tw.Stop() // a second Stop panics: recorded by verifh as PANIC
+				stopped = true
+				if !verifh.SettleGoroutines(base-1, 2*time.Second) {
+					return "stopped LOOP-ALIVE"
+				}
+				return fmt.Sprintf("stopped %d", stops())
 			default:
 				return "bad-op"
 			}
 			if err != nil {
-				return "err " + err.Error()
+				return c12Err(err)
 			}
-			sync()
-			return collect()
+			waitLoop()
+			return sink.collect(base)
 		}
 		return step, func() {
-			tw.Stop()
+			if !stopped {
+				tw.Stop()
+			}
 			verifh.SettleGoroutines(base-1, time.Second)
 		}
 	})
+}
+
+func c12CtorStep(op []string) string {
+	if op[0] != "new" || len(op) != 4 {
+		return "bad-op"
+	}
+	var exec Execute
+	if op[3] == "0" {
+		exec = func(k, v any) {}
+	}
+	before := runtime.NumGoroutine()
+	tw, err := NewTimingWheel(time.Duration(verifh.Atoi(op[1])), verifh.Atoi(op[2]), exec)
+	if err != nil {
+		if tw != nil {
+			return "err-and-wheel"
+		}
+		return "err"
+	}
+	tw.Stop()
+	verifh.SettleGoroutines(before, 2*time.Second)
+	return "ok"
 }
